@@ -117,5 +117,32 @@ fn deliver(read_state: &mut ReadTcpState, new_state: Option<ReadTcpState>) -> (r
 //%end
     ret_buf
 }
+// ---- close handling: "a connection closed between messages ends the stream cleanly, one closed inside a length prefix or
+//      body yields an error" -- the `read == 0` branches of the two receive states (statement ranges; the `return
+//      Poll::Ready(..)` of the enclosing poll_next become the wrapper's verdict) ----
+pub enum VpClose { NotClosed, CleanEnd, Error }
+fn closed_while_reading_prefix(pos: &mut usize, read: usize) -> (r: VpClose)
+    ensures *final(pos) == *old(pos),
+        read != 0 ==> r is NotClosed,
+        // zero octets read = the peer closed: a clean end only at a frame boundary
+        read == 0 && *old(pos) == 0 ==> r is CleanEnd,
+        read == 0 && *old(pos) != 0 ==> r is Error,
+{
+//%expr crates/net/src/tcp/tcp_stream.rs :: impl<S: DnsTcpStream> Stream for TcpStream<S> :: poll_next :: "if read == 0 {"@1 .. "\"closed while reading length\", )))); } }"
+//%sub1 "return Poll::Ready(None);" => "return VpClose::CleanEnd;" # wrapper: poll_next's `Poll::Ready(None)` = the stream ends cleanly
+//%sub1 "return Poll::Ready(Some(Err(io::Error::new( io::ErrorKind::BrokenPipe, \"closed while reading length\", ))));" => "return VpClose::Error;" # wrapper: poll_next yields an error item
+//%mutant clean_end_inside_a_prefix "if *pos == 0 {" => "if *pos <= 1 {"
+//%end
+    VpClose::NotClosed
+}
+fn closed_while_reading_body(read: usize) -> (r: VpClose)
+    ensures read != 0 ==> r is NotClosed, read == 0 ==> r is Error      // a body is never cut short silently
+{
+//%expr crates/net/src/tcp/tcp_stream.rs :: impl<S: DnsTcpStream> Stream for TcpStream<S> :: poll_next :: "if read == 0 {"@2 .. "\"closed while reading message\", )))); }"
+//%sub1 "return Poll::Ready(Some(Err(io::Error::new( io::ErrorKind::BrokenPipe, \"closed while reading message\", ))));" => "return VpClose::Error;" # wrapper: poll_next yields an error item
+//%end
+    VpClose::NotClosed
+}
+
 } // verus!
 fn main() {}
